@@ -61,6 +61,10 @@ def identity_snapshot(reach):
                 pending.append(("child", x, ch))
                 keep.append(ch)
         reverse[name] = sorted(c.name for c in obj.modeling_obj_containers)
+        # every registered back link that is attached (a multiset: hidden duplicates are damage too)
+        reverse[(name, "#attached back links")] = sorted(
+            (w.modeling_obj_container.name, str(w.attr_name_in_mod_obj_container))
+            for w in obj.contextual_modeling_obj_containers if w.modeling_obj_container is not None)
     # The graph users inspect is keyed by value ids ('<attr>-in-<object id>'; all entries of a dict share one): edges are
     # compared at that level, together with whether both ends are objects currently held by the model.
     held_ids = set(held.values())
